@@ -157,6 +157,7 @@ pub fn generate(prop: &str, _tier: Tier, rng: &mut Rng, _idx: u64) -> Case {
             }
             if prop == "C08" {
                 cfg.writer_tweaks = rng.coin();
+                cfg.pubrel_variants = rng.chance(2, 3);
             }
             let mut g = Gen::new(cfg, rng);
             g.preamble();
